@@ -222,7 +222,7 @@ def describe(c):
 
 
 def run_cases(run, binary, cases, tag, up_to_phase=False, relation="ops-correspondence", deadline=30.0,
-              theorem_hint=""):
+              theorem_hint="", self_relation=None):
     """Run all cases through implementation and model.  Records violations in `run`.
     Returns (n_evaluated, disagreements)."""
     texts = [(str(i), harness_text(c)) for i, c in enumerate(cases)]
@@ -236,6 +236,29 @@ def run_cases(run, binary, cases, tag, up_to_phase=False, relation="ops-correspo
             disagreements.append((i, c, oi, om))
     # classify: search for a concrete input on which the property itself fails
     found = 0
+    if self_relation is not None and disagreements:
+        # the statement relates the implementation to itself (tools/oprel.py): evaluate that relation on the
+        # implementation for the disagreeing cases first, then for a sample of all cases
+        pool = [c for _, c, _, _ in disagreements[:60]]
+        rest = [c for c in cases if c not in pool]
+        run.rng.shuffle(rest)
+        for c in pool + rest[:300]:
+            why = self_relation(binary, c)
+            if why:
+                found += 1
+                run.violation({"case": describe(c), "what": why,
+                               "how": "relation of the statement evaluated on implementation results only"})
+                if found >= 3:
+                    break
+        if not found:
+            i, c, oi, om = disagreements[0]
+            run.violation({"relation": relation, "theorem": theorem_hint,
+                           "what": "implementation left the model (correspondence %s no longer checks); the statement's own "
+                                   "relation still holds on the implementation for every case tried, so no input violating "
+                                   "the property was found" % relation,
+                           "case": describe(c), "implementation": _short(oi), "model": _short(om),
+                           "disagreements": len(disagreements)}, found_input=False)
+        return len(cases), disagreements
     for i, c, oi, om in disagreements[:50]:
         ok = oracle_agrees(c, oi, up_to_phase)
         if ok is False:
